@@ -535,6 +535,12 @@ class RegExec:
                     if len(args) > 2:
                         return self.getattr_cls(o, name, default=args[2])
                     return self.getattr_cls(o, name)
+            if n == "setattr" and len(args) == 3:
+                o, name, val = args
+                if isinstance(o, ClsObj) and isinstance(name, str):
+                    o.ns[name] = val
+                    return None
+                raise AnalysisError("registration: setattr on %r" % (o,))
             if n == "issubclass":
                 a, b = args
                 if isinstance(a, ClsObj) and isinstance(b, ClsObj):
